@@ -181,6 +181,11 @@ def report(ctx, audit, table, tag):
             ctx.ok("%s:%s" % (tag, ":".join(key)), {"site": ":".join(key), "discharged": s["how"], "paths": s["count"]})
             continue
         reason = table.get(key)
+        if reason is None:
+            import fnmatch
+            for tk, tr in table.items():
+                if "*" in tk[0] and fnmatch.fnmatch(key[0], tk[0]) and tk[1:] == key[1:]:
+                    reason = tr
         b = audit.f.bodies.get(s["fn"])
         where = loc(b, s["line"]) if b else None
         ctx.check(reason is not None, "%s:%s" % (tag, ":".join(key)),
